@@ -73,6 +73,18 @@ def hilbert(I):
     back = _convert_basis_element_to_index(space[k].unsqueeze(0))
     if int(back.item()) != k:
         return False, "index of row %d is %s" % (k, back.item())
+    # history: the caller owns the returned tensor; after it was advanced / rescaled in place (sample(..., overwrite=True),
+    # spin conversion) a new request - from this or any other state object - enumerates the space again
+    from qucumber.nn_states import ComplexWaveFunction, DensityMatrix
+
+    space.mul_(2).sub_(1)
+    for other in (st, ComplexWaveFunction(2, 1, gpu=False), DensityMatrix(2, 1, 1, gpu=False)):
+        again = other.generate_hilbert_space(size)
+        if [int(x) for x in again[k].tolist()] != bits:
+            return False, "after the first space was modified in place, %s.generate_hilbert_space(%d)[%d] = %s, expected %s" % (type(other).__name__, s, k, again[k].tolist(), bits)
+        again.zero_()
+    if [int(x) for x in st.subspace_vector(num, size).tolist()] != bits:
+        return False, "subspace_vector after in-place edits of earlier results"
     return True, ""
 
 
@@ -199,6 +211,10 @@ def jobs(tier):
     J = [dict(name="index-n%d" % n, module="checks.c19", scenario="index_identity", kwargs=dict(n=n)) for n in range(1, 9)]
     J.append(dict(name="site-order-n2", module="checks.c19", scenario="site_order", kwargs=dict(n=2, strings=["XZ", "ZY", "YX"])))
     J.append(dict(name="site-order-n3", module="checks.c19", scenario="site_order", kwargs=dict(n=3, strings=["XZZ", "ZZY", "XYZ"])))
+    # position (i, j) of a density-matrix array the library ACCEPTS (rho= of rotate_rho / rotate_rho_probs) is row i, column j
+    # in the same big-endian order (scenario shared with C04; fully symbolic Hermitian rho, so a transposition shows with Y)
+    J.append(dict(name="accepted-rho-positions-n1", module="checks.c04", scenario="explicit", kwargs=dict(n=1, strings=["Y", "X"])))
+    J.append(dict(name="accepted-rho-positions-n2", module="checks.c04", scenario="explicit", kwargs=dict(n=2, strings=["YZ", "XY"])))
     return J
 
 
